@@ -19,6 +19,7 @@ func init() {
 			{"C02/ref-siblings", ruleC02RefSiblings},
 			{"C02/root-provenance", ruleC02RootProvenance},
 			{"C02/anchor-gate", ruleC02AnchorGate},
+			{"C02/presence-is-nil", func(c *Ctx) { rulePresenceIsNil(c, "C02/presence-is-nil") }},
 		},
 		Explanation: "Decides the draft-selection structure: the supported-version predicate, evaluated abstractly over the partition {\"\", the two draft-07 URIs, the 2020-12 URI, anything else}, is true on exactly the first four classes; the draft detector maps the two draft-07 spellings to draft-07 and the others to 2020-12; in Validate (and default validation) the predicate is applied to the root's $schema, its false outcome returns an error and it dominates every evaluation; under draft-07 a successful $ref returns before any other keyword of the schema object is read, and an $id beside $ref is ignored under the same test; the $schema stored into a loaded document and the draft of every Resolved derive from the root of the referring document, never from the referring subschema; $anchor/$dynamicAnchor are registered only under 2020-12 and fragment $id anchors only under draft-07. It does NOT decide that items-array/additionalItems/dependencies behave as draft-07 prescribes for concrete inputs (the suite's 913 draft-07 pairs exercise those handlers).",
 		NotDecided: []string{"the verdict of any draft-07 schema/instance pair", "behaviour of array-form items, additionalItems and dependencies beyond being reached under the draft-07 test"},
@@ -378,4 +379,52 @@ func (c *Ctx) isDirectFieldLoad(v ssa.Value, field string) bool {
 	}
 	fa, ok := ld.X.(*ssa.FieldAddr)
 	return ok && c.fieldName(fa.X.Type(), fa.Field) == field
+}
+
+// Keywords whose empty value differs from absence must be tested for presence
+// with a nil comparison, never with a length test (Schema documents "nil is
+// absent, empty is present"): an empty draft-07 items array still hands every
+// item to additionalItems, an empty enum/anyOf/oneOf/type list rejects everything.
+func rulePresenceIsNil(c *Ctx, rule string) {
+	m := c.EvalModel(rule)
+	if m == nil {
+		return
+	}
+	significant := map[string]string{"Schema.ItemsArray": "an empty items array hands every item to additionalItems", "Schema.Enum": "an empty enum rejects everything",
+		"Schema.AnyOf": "an empty anyOf rejects everything", "Schema.OneOf": "an empty oneOf rejects everything", "Schema.Types": "an empty type list rejects everything"}
+	bad := 0
+	nIfs := 0
+	for _, fn := range m.Nest {
+		core.EachInstr(fn, func(i ssa.Instruction) {
+			ifi, ok := i.(*ssa.If)
+			if !ok {
+				return
+			}
+			nIfs++
+			bo, ok := ifi.Cond.(*ssa.BinOp)
+			if !ok {
+				return
+			}
+			for _, pair := range [][2]ssa.Value{{bo.X, bo.Y}, {bo.Y, bo.X}} {
+				call, isCall := pair[0].(*ssa.Call)
+				k, isK := pair[1].(*ssa.Const)
+				if !isCall || !isK || core.CalleeKey(&call.Call) != "builtin.len" {
+					continue
+				}
+				kv, okk := constInt(k)
+				if !okk || kv > 1 {
+					continue
+				}
+				for field, why := range significant {
+					if c.mentionsField(call.Call.Args[0], field, 6) {
+						bad++
+						c.R.Bad(rule, core.FuncName(fn)+":len-test:"+field, c.pos(ifi), "the presence of "+field+" is decided by a length test; it must be a nil test: "+why)
+					}
+				}
+			}
+		})
+	}
+	if bad == 0 {
+		c.R.OK(rule, "evaluator:no-length-presence-tests", "", fmt.Sprintf("%d branch conditions in the evaluator; none decides the presence of enum, anyOf, oneOf, type list or items array by its length", nIfs))
+	}
 }
